@@ -50,6 +50,7 @@ DeclWidth(decl) == IF decl.bits >= 0 THEN decl.bits ELSE LeastWidth(MaxDisc(decl
 DeclWellFormed(decl) ==
     /\ Len(decl.variants) >= 1
     /\ \A i \in 1 .. Len(decl.variants) : decl.variants[i].disc \in 0 .. 255
+    /\ \A i, j \in 1 .. Len(decl.variants) : i # j => decl.variants[i].disc # decl.variants[j].disc   \* Rust itself demands it
     /\ decl.bits >= 0 => decl.bits >= LeastWidth(MaxDisc(decl))
 
 VariantOfPattern(decl, p) ==
